@@ -174,6 +174,8 @@ pub fn cert_alphabet() -> Vec<CertSpec> {
     push("vote_reg_and_deleg(key3,2^63)", Certificate::new_vote_registration_and_delegation(&VoteRegistrationAndDelegation::new(&cred_key(3), &DRep::new_always_no_confidence(), &bn(C_2P63))), Dep::Explicit(C_2P63), Dep::None, vec![3], None);
     push("vote_reg_and_deleg(script0,500ADA)", Certificate::new_vote_registration_and_delegation(&VoteRegistrationAndDelegation::new(&cred_script(0), &drep, &bn(C_500ADA))), Dep::Explicit(C_500ADA), Dep::None, vec![], Some(0));
     push("reg_cert(key3,2^64-1)", Certificate::new_reg_cert(&StakeRegistration::new_with_explicit_deposit(&cred_key(3), &bn(u64::MAX))).unwrap(), Dep::Explicit(u64::MAX), Dep::None, vec![3], None);
+    push("stake_delegation(script2)", Certificate::new_stake_delegation(&StakeDelegation::new(&cred_script(2), &kh(2))), Dep::None, Dep::None, vec![], Some(2));
+    push("vote_delegation(script2)", Certificate::new_vote_delegation(&VoteDelegation::new(&cred_script(2), &DRep::new_always_abstain())), Dep::None, Dep::None, vec![], Some(2));
     v
 }
 
